@@ -3,8 +3,8 @@
  1. MC      exhaustive TLC run of the implementation-shaped model of the REPAIRED code (Pinned = FALSE) with the
             property-level clauses of the requested property; a small run of the transcription of the tree AS
             PINNED (Pinned = TRUE) must be refuted by TLC (the model can tell the defect)
- 2. GEN     every transition of a small instance, as the operation history that reaches it, plus simulated
-            histories (depth 25) over larger alphabets
+ 2. GEN     every transition of a small instance (Store_Gen), as the operation history that reaches it, plus
+            long pseudo-random histories (Store_Sim: depth 25, every choice made by TLC) over larger alphabets
  3. REPLAY  each history is executed on the real shelve backend (harness/store_h.py): real dbm files, real
             Interface._update/_load over the in-memory client <-> comms.Worker bridge, real remove / reset /
             trace / next / add / update, close + reopen; closing sweep reads every stored identity back
@@ -149,7 +149,7 @@ def signature(clause, job, steps, line):
                 return 'load of an entry deleted by a remove addressed to a name that is a proper prefix of one of its names'
         return 'load:' + ','.join(p['ev'] for p in before)
     if clause.startswith('C08.ExactNames'):
-        for level, key in (('algorithm', 'a'), ('state vector', 's'), ('value', 'v')):
+        for level, key in (('algorithm', 'a'), ('state vector', 's'), ('value', 'v')) if st['ev'] == 'Remove' else (('algorithm', 'a'),):
             names = {p['args'][key] for p in before if p['ev'] in ('Update', 'Register', 'Load')}
             if a[key] and any(is_proper_prefix(a[key], n) for n in names):
                 return f'{st["ev"].lower()} addressed to a name that is a proper prefix of another {level} name'
@@ -210,6 +210,7 @@ def run(pid, tier, seed, replay=None):
         chk.mc('mc_small3', 'Store_MC.tla', dict(spec='Spec', constants=consts(SMALL, 3), extra=['VIEW View'], **props), workers=core.NPROC)
         chk.mc('mc_full2', 'Store_MC.tla', dict(spec='Spec', constants=consts(FULL, 2), extra=['VIEW View'], **props), workers=MCW)
         chk.mc('mc_small4', 'Store_MC.tla', dict(spec='Spec', constants=consts(SMALL, 4, canon=True), extra=['VIEW View'], **props), workers=core.NPROC)
+        chk.mc('mc_full3', 'Store_MC.tla', dict(spec='Spec', constants=consts(FULL, 3, canon=True), extra=['VIEW View'], **props), workers=core.NPROC)
     #    ... and the transcription of the tree as pinned is refuted (design-level defect visible without running code)
     pin = chk.mc('mc_pinned', 'Store_MC.tla', dict(spec='Spec', constants=consts(TINY, 3, pinned=True), extra=['VIEW View'], **props), workers=4, expect_ok=False)
     if pin.ok:
@@ -218,7 +219,7 @@ def run(pid, tier, seed, replay=None):
     # 2. GEN
     scheds = gen_schedules(chk, 'gen', SMALL, 3 if thorough else 2)
     total_transitions = len(scheds)
-    cap = 12000 if thorough else 1200
+    cap = 16000 if thorough else 1200
     if len(scheds) > cap:
         short = [h for h in scheds if len(h) <= 2]
         rest = [h for h in scheds if len(h) > 2]
